@@ -225,11 +225,20 @@ func (m *Machine) ProcessPacket(out, packet []byte) ([]byte, *Result, error) {
 	// noise returns (cs1, cs2) where cs1 is the initiator->responder cipher.
 	// For 3-message patterns where a responder finishes by reading the final
 	// message, this ordering would be wrong; revisit when XX/pqIX lands.
+	hBefore := append([]byte(nil), m.hs.ChannelBinding()...)
+	rsBefore := len(m.hs.PeerStatic())
 	msg, eKey, dKey, err := m.hs.ReadMessage(nil, packet[header.Len:])
 	if err != nil {
 		// Noise ReadMessage failed. The noise library checkpoints and rolls back
-		// on failure, so the Machine is still alive. The caller can retry with
-		// a different packet.
+		// when authentication fails, so the Machine is still alive and the caller
+		// can retry with a different packet. It does not roll back when the message
+		// is cut short after the ephemeral key or when a DH operation rejects a
+		// public key: the transcript hash (and possibly the remote static key) has
+		// already moved and the genuine message can no longer be read. That state
+		// is unrecoverable, so say so.
+		if !bytes.Equal(hBefore, m.hs.ChannelBinding()) || len(m.hs.PeerStatic()) != rsBefore {
+			m.failed = true
+		}
 		return nil, nil, fmt.Errorf("noise ReadMessage: %w", err)
 	}
 
